@@ -44,9 +44,12 @@ def seeded_table():
         m = json.load(open(meta_path))
         needs = m.get("summary") or m.get("needs", "")
         needs = re.sub(r"\s+", " ", needs)[:260].replace("|", "\\|")
+        missed = ", ".join(m.get("missed_by", [])) or "-"
+        if m.get("disposition") and not m.get("caught_by"):
+            missed += " (" + m["disposition"].split(":")[0] + ")"
         lines.append("| seeded/%s | %s | %s | %s | %s | %s |" % (
             entry, m["property"], needs, "yes" if m.get("confirmed") else "NO",
-            ", ".join(m.get("caught_by", [])) or "-", ", ".join(m.get("missed_by", [])) or "-"))
+            ", ".join(m.get("caught_by", [])) or "-", missed))
     return "\n".join(lines)
 
 
